@@ -247,13 +247,13 @@ def retrieval_matcher(
   y_prob = y_prob or [None] * len(y_true)
   for row_true, row_pred, row_prob in zip(y_true, y_pred, y_prob, strict=True):
     row_prob = (
-        np.ones_like(row_pred, dtype=np.float32)
+        np.ones_like(row_pred, dtype=np.float64)
         if row_prob is None
         else np.asarray(row_prob)
     )
     row_true, row_pred = np.asarray(row_true), np.asarray(row_pred)
-    row_true_prob = np.zeros_like(row_true, dtype=np.float32)
-    row_pred_prob = np.zeros_like(row_pred, dtype=np.float32)
+    row_true_prob = np.zeros_like(row_true, dtype=np.float64)
+    row_pred_prob = np.zeros_like(row_pred, dtype=np.float64)
     for i, (prob, pred) in enumerate(zip(row_prob, row_pred)):
       ixs = np.where(row_true == pred)[0]
       assert len(ixs) < 2
@@ -345,7 +345,7 @@ class ThresholdedRetrieval(base.MergeableMetric):
   )
 
   def __post_init__(self):
-    thresholds = np.asarray(sorted(self.thresholds), dtype=np.float32)
+    thresholds = np.asarray(sorted(self.thresholds), dtype=np.float64)
     object.__setattr__(self, 'thresholds', thresholds)
     confusion_matrix = _ThresholdedConfusionMatrix(thresholds=thresholds)
     object.__setattr__(self, '_confusion_matrix', confusion_matrix)
